@@ -93,5 +93,25 @@ EXTRA = {
  "C19": " Prefill contains module-only, note-only and empty cells; successful edits also move the pattern's own cell objects to other cells.",
  "C20": " Bundles with a history (targets unplugged after linking, unit-dependent targets under every unit, bystander modules) are driven on sampled inputs and every controller of every module is compared before/after. Bundles across project levels (MultiCtl -> MetaModule slot -> embedded MultiCtl) and a served-at-all check for every live mapped link.",
 }
-for _pid, _txt in EXTRA.items():
-    CHECKS[_pid]["text"] += _txt
+# rounds 6-8
+EXTRA2 = {
+ "C01": " Written files are also re-loaded by a fresh interpreter; option records that are all defaults but one are generated.",
+ "C02": " Written files are also re-loaded by a fresh interpreter; array chunks are filled in place after reset(); the module is also saved among other modules of its own type.",
+ "C04": " Ids the format defines for another level are inserted where they mean nothing, and the plain file is loaded again afterwards; patterns are resized before their notes are first read.",
+ "C05": " A save made before anything looked at the loaded object must equal the save after inspection; API-made objects are exported / saved / cloned in several orders; over-long note blocks.",
+ "C06": " Sparse note-block images are assigned over existing events; the tail of a sampler's note map is un-mapped.",
+ "C07": " Operands are also one-shot iterables producing fresh ~wrappers; foreign operands include other projects' Output modules.",
+ "C08": " A collected chunk sequence (list(project.chunks())) written out must equal project.read().",
+ "C10": " Proxy slots holding the target's default while the embedded controller holds something else go through files; the Sampler's instrument-record controllers are checked on Samplers handed a chunk through load_chunk() and on files without an instrument record.",
+ "C11": " Two modules kept in step by change handlers (instance attributes / subclass methods) never show two exclusive options on; options are also edited inside a loaded Sampler's effect slot.",
+ "C12": " Cells are also set from a scratch buffer that is re-used right afterwards.",
+ "C13": " ... and after controller-adding subclasses were defined late in the process.",
+ "C14": " Modules are wired (pairs, fan-out, fan-in, operators, disconnects) between attachments.",
+ "C15": " An attached MetaModule whose song was saved is exported stand-alone after its embedded project was edited; label chunks as other writers leave them (text after the NUL, unterminated, padded).",
+ "C17": " Deep copies of wired modules are edited (and the original edited against the copy); after 150 / 1500 loads failing inside nested containers valid nested files and clones behave as before.",
+ "C18": " Lenient loads are repeated with warnings turned into errors; files in other formats (gzip, bz2, xz, zip, text, empty) are handed over by name under the descriptor monitor.",
+ "C19": " Notes of locally defined Note subclasses and projects carrying lambdas / local helper objects; foreign-owned notes under warnings-as-errors.",
+ "C20": " Other writers (direct assignments, a second bundle) move the destination between strictly rising sends.",
+}
+for _pid in CHECKS:
+    CHECKS[_pid]["text"] += EXTRA.get(_pid, "") + EXTRA2.get(_pid, "") + " A few shards of every run are replayed with DEBUG logging, under python -O and under python -W error."
